@@ -996,6 +996,8 @@ class Interp:
         h = self.externals.get(("getitem", t))
         if h is not None:
             return h(self, obj, key)
+        if t is SymDict:
+            return obj[key]
         if is_sym(key) or (isinstance(key, slice) and contains_sym((key.start, key.stop, key.step))):
             if isinstance(obj, dict) and all(isinstance(k, int) for k in obj):
                 # f_mod[w1.size + 8] etc: fork over the keys
@@ -1016,7 +1018,7 @@ class Interp:
         h = self.externals.get(("setitem", t))
         if h is not None:
             return h(self, obj, key, value)
-        if is_sym(key):
+        if is_sym(key) and t is not SymDict:
             raise Unmodelled(f"symbolic key stored into {t.__name__}")
         obj[key] = value
 
@@ -2455,3 +2457,60 @@ def _ghost_logger(name):
 
 for _n in ("debug", "debug_once", "info", "warn", "warn_code", "error", "logger_unique_debug"):
     DEFAULT_EXTERNALS[f"halmos.logs:{_n}"] = _ghost_logger(_n)
+
+
+# --------------------------------------------------------------------------------------
+# ghost dictionary with symbolic integer keys (small maps; every key comparison is a path split)
+
+
+class SymDict:
+    """stands for a python dict whose keys may be symbolic ints; `get` / `[]` / `[]=` / `copy` / `in`
+    decide key equality by branching, so every aliasing pattern of the keys is explored"""
+
+    def __init__(self, items=None):
+        self.items_ = list(items or [])
+
+    def _find(self, key):
+        it = Interp.current
+        for k, (kk, vv) in enumerate(self.items_):
+            if kk is key:
+                return k
+            r = it.compare(ast.Eq, kk, key)
+            if it.truth(r):
+                return k
+        return None
+
+    def get(self, key, default=None):
+        k = self._find(key)
+        return default if k is None else self.items_[k][1]
+
+    def __getitem__(self, key):
+        k = self._find(key)
+        if k is None:
+            raise KeyError(key)
+        return self.items_[k][1]
+
+    def __setitem__(self, key, value):
+        k = self._find(key)
+        if k is None:
+            self.items_.append((key, value))
+        else:
+            self.items_[k] = (self.items_[k][0], value)
+
+    def __contains__(self, key):
+        return self._find(key) is not None
+
+    def __len__(self):
+        return len(self.items_)
+
+    def copy(self):
+        return SymDict(self.items_)
+
+    def keys(self):
+        return [k for k, _ in self.items_]
+
+    def values(self):
+        return [v for _, v in self.items_]
+
+    def items(self):
+        return list(self.items_)
